@@ -80,7 +80,10 @@ inline bool &en_ref(int table, void *obj) {
 struct LeafCbs {
   static cb_t self() { return [](const char *, rtosc::RtData &d) { d.reply(d.loc, "b", sizeof(d.obj), &d.obj); }; }
 };
-enum Kind { LEAF = 0, RECUR = 1, RECURP = 2, RECURS = 3, RECURSP = 4 };
+enum Kind { LEAF = 0, RECUR = 1, RECURP = 2, RECURS = 3, RECURSP = 4, MULTI = 5 };
+// MULTI: a sub-tree port with a multi-component name ("a#3/b#2/c/"); its callback is harness-made (hands down the
+// 'one' child and cuts as many components as the name has) because the library's recursion macros cut exactly one
+inline int child_variant(int kind) { return kind == MULTI ? 0 : kind - 1; }
 inline cb_t recursion_cb(int table, int kind) {
 #define PT_CASE(L, V) switch (kind) { case RECUR: return Cbs<L, V>::recur(); case RECURP: return Cbs<L, V>::recurp(); case RECURS: return Cbs<L, V>::recurs(); default: return Cbs<L, V>::recursp(); }
   switch (table) {
@@ -139,7 +142,7 @@ struct Tree {
     for (size_t t = 0; t < tables.size(); t++) {
       if (tables[t].ports.empty()) continue;
       d += "T" + std::to_string(t) + (tables[t].default_handler ? "(dflt)" : "") + "{";
-      for (auto &p : tables[t].ports) { d += "\"" + p.name + "\""; if (p.kind) d += std::string("~") + "?1psP"[p.kind]; d += " "; }
+      for (auto &p : tables[t].ports) { d += "\"" + p.name + "\""; if (p.kind) d += std::string("~") + "?1psPm"[p.kind]; d += " "; }
       d += "} ";
     }
     d += "dis=" + std::to_string(dis[0]) + "," + std::to_string(dis[1]) + "," + std::to_string(dis[2]) + " null_ptr=" + std::to_string(null_ptr[0]) + std::to_string(null_ptr[1]) + " null_manyp=" + std::to_string(null_manyp[0]) + "," + std::to_string(null_manyp[1]);
@@ -207,10 +210,19 @@ struct Instance {
         p.metadata = metas[(size_t)id].back().get();
         int level = table_level(id);
         if (pp.subtree() && level < 2) {
-          int child = table_id(level + 1, pp.kind - 1);
+          int child = table_id(level + 1, child_variant(pp.kind));
           // an empty child table still needs a Ports object to walk/dispatch into
           if (!tabs[(size_t)child]) { tabs[(size_t)child].reset(new DynPorts({})); proxy(child).p = tabs[(size_t)child].get(); }
           p.ports = tabs[(size_t)child].get();
+          if (pp.kind == MULTI) {
+            int ncomp = 0;
+            for (char ch : pp.name) if (ch == '/') ncomp++;
+            p.cb = cb_t([this, id, child, ncomp](const char *m, rtosc::RtData &d) {
+              d.obj = child_obj(id, d.obj, RECUR, 0);
+              for (int k = 0; k < ncomp; k++) { while (*m && *m != '/') ++m; if (*m) ++m; }
+              proxy(child).dispatch(m, d);
+            });
+          } else
           p.cb = recursion_cb(id, pp.kind);
         } else {
           p.ports = nullptr;
@@ -244,7 +256,48 @@ struct Instance {
     }
   }
   ~Instance() { for (int id = 0; id < 9; id++) proxy(id).p = nullptr; }
-  const rtosc::Ports &rootports() const { return *tabs[0]; }
+  // the root table may be handed to the library through MergePorts (two halves merged, later duplicates by name
+  // dropped) or ClonePorts (two leaf ports cloned with recording callbacks plus a '*' default handler)
+  std::unique_ptr<DynPorts> half[2];
+  std::unique_ptr<rtosc::Ports> wrapped;
+  std::vector<int> root_index;     // wrapped root port i corresponds to tree.tables[0].ports[root_index[i]]
+  int root_mode = 0;
+  void wrap_root(int mode) {
+    const std::vector<rtosc::Port> &v = tabs[0]->ports;
+    if (mode == 1 && v.size() >= 2) {
+      size_t h = v.size() / 2;
+      half[0].reset(new DynPorts(std::vector<rtosc::Port>(v.begin(), v.begin() + (long)h)));
+      half[1].reset(new DynPorts(std::vector<rtosc::Port>(v.begin() + (long)h, v.end())));
+      wrapped.reset(new rtosc::MergePorts({half[0].get(), half[1].get()}));
+      for (size_t i = 0; i < v.size(); i++) {
+        bool dup = false;
+        for (size_t j = 0; j < i; j++) if (!strcmp(v[j].name, v[i].name)) dup = true;
+        if (!dup) root_index.push_back((int)i);
+      }
+      root_mode = 1;
+    } else if (mode == 2) {
+      std::vector<int> leaves;
+      for (size_t i = 0; i < v.size(); i++) if (!v[i].ports) { bool later = false; for (size_t j = i + 1; j < v.size(); j++) if (!strcmp(v[j].name, v[i].name)) later = true; if (!later) leaves.push_back((int)i); }
+      if (leaves.size() < 2) return;
+      int a = leaves[0], b = leaves[leaves.size() - 1];
+      if (!strcmp(v[(size_t)a].name, v[(size_t)b].name)) return;
+      wrapped.reset(new rtosc::ClonePorts(*tabs[0], {{v[(size_t)a].name, v[(size_t)a].cb}, {v[(size_t)b].name, v[(size_t)b].cb},
+                                                     {"*", [this](const char *, rtosc::RtData &d) { Seen s; s.table = 0; s.port = -1; s.obj = d.obj; if (d.loc) { s.loc = d.loc; s.has_loc = true; } if (record) seen.push_back(s); }}}));
+      root_index = {a, b};
+      root_mode = 2;
+    }
+    if (root_mode) {
+      // the model sees the wrapped table: drop what the wrapper dropped (indices stay those of the original table)
+      PTable nt;
+      nt.default_handler = root_mode == 2 ? true : tree.tables[0].default_handler;
+      model_root = nt;
+      for (int i : root_index) model_root.ports.push_back(tree.tables[0].ports[(size_t)i]);
+      if (root_mode == 1 && tree.tables[0].default_handler) wrapped->default_handler = tabs[0]->default_handler;
+      proxy(0).p = wrapped.get();
+    }
+  }
+  PTable model_root;
+  const rtosc::Ports &rootports() const { return wrapped ? *wrapped : *tabs[0]; }
 
   // ---- reference model
   struct Expect { int table, port; void *obj; std::string loc; };
@@ -264,9 +317,10 @@ struct Instance {
   // expected leaf invocations for an address (without the leading '/'). unspecified=true if a type
   // string merely extends an alternative somewhere (statement leaves that open).
   void expect(int table, void *obj, const std::string &rest, const std::string &tags, const std::string &loc, std::vector<Expect> &out, bool &unspecified) const {
-    const PTable &t = tree.tables[(size_t)table];
-    for (size_t i = 0; i < t.ports.size(); i++) {
-      const PPort &pp = t.ports[i];
+    const PTable &t = (table == 0 && root_mode) ? model_root : tree.tables[(size_t)table];
+    for (size_t i0 = 0; i0 < t.ports.size(); i0++) {
+      const PPort &pp = t.ports[i0];
+      size_t i = (table == 0 && root_mode) ? (size_t)root_index[i0] : i0;   // report indices of the original table
       refmatch::Pattern pat = refmatch::parse(pp.name);
       if (!refmatch::path_matches(pat, rest)) continue;
       refmatch::Expect te = refmatch::types_expect(pat, tags);
@@ -280,15 +334,16 @@ struct Instance {
         out.push_back({table, (int)i, obj, l});
       } else {
         size_t s = rest.find('/');
+        if (pp.kind == MULTI) { int nc = 0; for (char ch : pp.name) if (ch == '/') nc++; for (int k = 1; k < nc && s != std::string::npos; k++) s = rest.find('/', s + 1); }
         std::string comp = rest.substr(0, s);
         // index: first digit run of the component (as the library's array callbacks read it)
         int idx = 0;
         size_t dpos = comp.find_first_of("0123456789");
         if (dpos != std::string::npos) idx = atoi(comp.c_str() + dpos);
         if ((pp.kind == RECURS || pp.kind == RECURSP) && idx > 3) continue;  // cannot be generated (N<=4)
-        void *co = child_obj(table, obj, pp.kind, idx);
+        void *co = child_obj(table, obj, pp.kind == MULTI ? (int)RECUR : pp.kind, idx);
         if (!co) continue;  // NULL pointer sub-tree: nothing below is reachable
-        int child = table_id(table_level(table) + 1, pp.kind - 1);
+        int child = table_id(table_level(table) + 1, child_variant(pp.kind));
         expect(child, co, rest.substr(s + 1), tags, loc + comp + "/", out, unspecified);
       }
     }
@@ -325,6 +380,24 @@ struct Instance {
     for (int i = 0; i < n; i++) out.push_back({path.substr(0, h) + std::to_string(i) + path.substr(e), i});
     return out;
   }
+  // sub-tree names: every '#N' is expanded (second: index of the first enumeration)
+  static std::vector<std::pair<std::string, int>> expansions_all(const std::string &name) {
+    std::vector<std::pair<std::string, int>> cur = {{"", -1}};
+    std::string path = name.substr(0, name.find(':'));
+    size_t i = 0;
+    while (i < path.size()) {
+      if (path[i] != '#') { for (auto &c : cur) c.first += path[i]; i++; continue; }
+      size_t e = i + 1;
+      while (e < path.size() && isdigit((unsigned char)path[e])) e++;
+      int n = atoi(path.c_str() + i + 1);
+      std::vector<std::pair<std::string, int>> next;
+      for (auto &c : cur) for (int k = 0; k < n; k++) next.push_back({c.first + std::to_string(k), c.second < 0 ? k : c.second});
+      cur = next;
+      i = e;
+    }
+    for (auto &c : cur) if (c.second < 0) c.second = 0;
+    return cur;
+  }
   void model_walk(int table, void *obj, bool runtime, const std::string &prefix, std::vector<Report> &out) const {
     const PTable &t = tree.tables[(size_t)table];
     if (runtime) {
@@ -346,11 +419,11 @@ struct Instance {
         for (auto &ex : expansions(pp.name)) out.push_back({table, (int)i, prefix + ex.first, false});
         continue;
       }
-      int child = table_id(table_level(table) + 1, pp.kind - 1);
-      for (auto &ex : expansions(pp.name)) {
+      int child = table_id(table_level(table) + 1, child_variant(pp.kind));
+      for (auto &ex : expansions_all(pp.name)) {
         void *co = nullptr;
         if (runtime) {
-          co = child_obj(table, obj, pp.kind, ex.second);
+          co = child_obj(table, obj, pp.kind == MULTI ? (int)RECUR : pp.kind, ex.second);
           if (!co) continue;
           if (!meta_get(pp.meta, "enabled by").empty() && !en_ref(table, obj)) continue;
         }
@@ -477,7 +550,7 @@ inline std::string gen_address(const Tree &t, std::string &tags_out) {
       else tags_out = vf::oneof<std::string>({"", "i", "f", "ii", "s", "T", "F", "if"});
       break;
     }
-    table = table_id(table_level(table) + 1, pp.kind - 1);
+    table = table_id(table_level(table) + 1, child_variant(pp.kind));
   }
   return addr;
 }
